@@ -30,6 +30,8 @@ type c06Result struct {
 	mem    []string
 	fil    []c06Obs
 	filErr error
+	rel    []c06Obs
+	relErr error
 }
 
 // c06RunAll runs every case (detector level; filter level where c.Filter) grouped by win.
@@ -41,6 +43,7 @@ func c06RunAll(d *vCtx, cases []*c06Case, workers int) ([]c06Result, error) {
 	}
 	defer os.RemoveAll(base)
 	defer SetAffectedByWindows(false)
+	_ = os.Unsetenv("TMUX") // the relay-level runs create real relays: not inside somebody's tmux
 	for _, win := range []bool{false, true} {
 		SetAffectedByWindows(win)
 		var wg sync.WaitGroup
@@ -53,6 +56,9 @@ func c06RunAll(d *vCtx, cases []*c06Case, workers int) ([]c06Result, error) {
 					c := cases[i]
 					obs, det := c06RunDetector(c)
 					res[i].det, res[i].mem = obs, c06MemOrdered(det)
+					if c.Role == "relaytmux" && !c.Win && c06NoTun(c) && i%c06RelayEvery == 0 {
+						res[i].rel, res[i].relErr = c06RunRelay(c, obs)
+					}
 					if c.Filter && c.Role == "client" {
 						dir := fmt.Sprintf("%s/f%d", base, i)
 						res[i].fil, res[i].filErr = c06RunFilter(c, dir, i%2 == 1)
@@ -103,6 +109,7 @@ func c06MBT(d *vCtx) error {
 	}
 	var mismatches []mism
 	drift, filterSteps, detSteps, filterCases, fired := 0, 0, 0, 0, 0
+	relayCases := 0
 	var sample map[string]any
 	for ci, c := range cases {
 		check := func(level string, obs []c06Obs) {
@@ -199,7 +206,15 @@ func c06MBT(d *vCtx) error {
 			}
 			check("filter", res[ci].fil)
 		}
+		if res[ci].rel != nil || res[ci].relErr != nil {
+			relayCases++
+			if res[ci].relErr != nil {
+				return fmt.Errorf("case %d: %v", ci, res[ci].relErr)
+			}
+			check("relay", res[ci].rel)
+		}
 	}
+	d.set("relay_cases", relayCases)
 	d.set("replayed", len(cases))
 	d.set("det_steps", detSteps)
 	d.set("filter_cases", filterCases)
@@ -495,4 +510,16 @@ func c06Rerun(d *vCtx) error {
 	}
 	d.set("events", tr.Len())
 	return tr.Close()
+}
+
+// c06RelayEvery: every n-th eligible session also runs through a real relay's output pump
+var c06RelayEvery = 7
+
+func c06NoTun(c *c06Case) bool {
+	for _, st := range c.Steps {
+		if st.Tun {
+			return false
+		}
+	}
+	return true
 }
